@@ -342,6 +342,12 @@ class Verdicts:
                 seen_known.setdefault(it["key"], []).append(it)
             else:
                 new.setdefault(it["key"], []).append(it)
+        try:   # full histogram of this run's violation keys, for inspection (not evidence)
+            with open(os.path.join(WORKROOT, f"keys_{self.prop}.json"), "w") as f:
+                json.dump({k: {"cases": len(v), "known": k in known, "example": v[0]["replay"]} for k, v in
+                           list(seen_known.items()) + list(new.items())}, f, indent=1, default=str, ensure_ascii=False)
+        except OSError:
+            pass
         for d in self.drift[:5]:
             log(f"DRIFT property={self.prop} {d}")
         for key, its in sorted(seen_known.items()):
